@@ -1087,7 +1087,11 @@ def _action(t, which, base):
         if cval(t.post.mem.get(('S', 'hold_state_flag'))) == 1 and cval(t.pre.mem.get(('S', 'hold_state_flag'))) == 0:
             return 'hold' if to == 'HOLD' and not acks else 'hold?'
         if to == 'PRINT_CMD' and not acks:
-            return 'list'
+            # the list starts at the first command in its first sub-step (where disable / only_test are evaluated)
+            CT = t.ex.ms.prog.enums
+            fresh = (cval(t.post.mem.get(('S', 'cmd_type'))) == CT['CAT_CMD_TYPE_NONE'] and cval(t.post.mem.get(('S', 'index'))) == 0
+                     and cval(t.post.mem.get(('S', 'length'))) == 0)
+            return 'list' if fresh else 'list-from-the-middle'
         if reformat:
             return 'reformat'
         if acks:
